@@ -3,11 +3,24 @@
 set -u
 cd /verif
 b=$1
+unresolved=0
 git merge "$b" -m "Merge $b" >/dev/null 2>&1
 for f in $(git diff --name-only --diff-filter=U); do
   case "$f" in
     evidence/*|MANIFEST.json) git checkout --ours -- "$f"; git add "$f";;
-    harness/props/*.manifest.json|DESIGN.md) git checkout --theirs -- "$f"; git add "$f"; echo "TOOK THEIRS: $f";;
+    harness/props/*.manifest.json) git checkout --theirs -- "$f"; git add "$f"; echo "TOOK THEIRS: $f";;
+    DESIGN.md)
+      # never take one side wholesale (it silently drops the other branches' sections): keep ours and
+      # re-apply the branch's own changes to DESIGN.md as a patch; leftovers stay marked and unresolved
+      base=$(git merge-base HEAD "$b")
+      git checkout --ours -- DESIGN.md
+      git diff "$base" "$b" -- DESIGN.md > /tmp/merge_ws_design.patch
+      git add DESIGN.md
+      if git apply --3way /tmp/merge_ws_design.patch >/dev/null 2>&1 && ! grep -q '^<<<<<<< ' DESIGN.md; then
+        git add DESIGN.md; echo "DESIGN.md: branch changes re-applied as a patch"
+      else
+        echo "UNRESOLVED DESIGN.md (conflict markers left in place: resolve by hand, then commit)"; unresolved=1
+      fi;;
     lean/Driver/Main.lean)
       python3 - <<'PY'
 import re,subprocess
@@ -51,9 +64,10 @@ for f in theirs['findings']:
 json.dump(ours,open('known_findings.json','w'),indent=1)
 PY
       git add known_findings.json;;
-    *) echo "UNRESOLVED $f";;
+    *) echo "UNRESOLVED $f"; unresolved=1;;
   esac
 done
 git diff --name-only --diff-filter=U
+if [ "$unresolved" = "1" ]; then echo "NOT COMMITTED: resolve the files above, then git add + git commit"; exit 1; fi
 git commit -q -m "Merge $b" 2>/dev/null
 git log --oneline | head -1
